@@ -118,6 +118,7 @@ func (w *Worker) RunDefaultsSkeleton(sk *Skeleton, property string) *SkelResult 
 	}
 	m := w.NewMachine()
 	m.TrackShared = true
+	m.AllOrders = sk.AllOrders
 	res.Stats = m.Stats
 	root := m.NewNode("I", sk.Tm)
 	var spec []refsem.DefaultInsertion
@@ -243,6 +244,12 @@ func (w *Worker) RunDefaultsSkeleton(sk *Skeleton, property string) *SkelResult 
 			}
 			got, nerr, pan := nativeApplyDefaults(rs, deepCopyJSON(inst))
 			want := refsem.DefaultsComplete(doc, deepCopyJSON(inst))
+			if sk.AllOrders {
+				// the engine chose map iteration orders; natively they are random: repeat
+				for try := 0; try < 60 && pan == nil && nerr == nil && jsonEqual(got, want); try++ {
+					got, nerr, pan = nativeApplyDefaults(rs, deepCopyJSON(inst))
+				}
+			}
 			f := Finding{Property: property, Skeleton: sk.Name, Family: sk.Family, Doc: sk.Doc, Draft: sk.Draft, Instance: canonicalJSON(inst), GoValue: DescribeGo(inst), Expected: canonicalJSON(want), Detail: why}
 			switch {
 			case pan != nil:
@@ -300,6 +307,15 @@ func FamilyDefaults(thorough bool) []*Skeleton {
 	add("d2.nested-mixed", J{"properties": J{"a": J{"properties": J{"b": J{"default": 2}, "c": J{"default": "z"}}, "required": A{"b"}}, "d": J{"default": false}}}, 2)
 	add("d2.nested-nonobject-sub", J{"properties": J{"a": J{"type": "array", "properties": J{"b": J{"default": 2}}}}}, 2)
 	add("d2.siblings", J{"properties": J{"a": J{"properties": J{"b": J{"default": 1}}}, "c": J{"properties": J{"b": J{"default": 2}}}}}, 2)
+	// the result must not depend on the order in which Go iterates the properties maps
+	addOrders := func(name string, doc J, depth int) {
+		add(name, doc, depth)
+		out[len(out)-1].AllOrders = true
+	}
+	addOrders("orders.partial-nested-defaults", J{"properties": J{"P": J{"properties": J{"x": J{"type": "integer"}, "y": J{"default": 1}, "z": J{"type": "string"}}}}}, 2)
+	addOrders("orders.partial-nested-required", J{"properties": J{"P": J{"properties": J{"x": J{"default": 3}, "y": J{"default": 1}}, "required": A{"x"}}, "Q": J{"default": 2}}}, 2)
+	addOrders("orders.two-levels", J{"properties": J{"a": J{"properties": J{"b": J{"type": "null"}, "c": J{"properties": J{"d": J{"default": 2}, "e": J{}}}}}, "f": J{}}}, 3)
+	addOrders("orders.mixed", J{"properties": J{"a": J{"properties": J{"b": J{"default": 2}, "c": J{"default": "z"}}, "required": A{"b"}}, "d": J{"default": false}}}, 2)
 	if thorough {
 		add("d3.chain", J{"properties": J{"a": J{"properties": J{"b": J{"properties": J{"c": J{"default": 3}}}}}}}, 3)
 		add("d3.chain-required-leaf", J{"properties": J{"a": J{"properties": J{"b": J{"properties": J{"c": J{"default": 3}}, "required": A{"c"}}}}}}, 3)
@@ -343,7 +359,7 @@ func init() {
 			}
 			r.AddSkel(skels[i], s)
 		}
-		r.Bounds = append(r.Bounds, "ApplyDefaults applied twice per path to a symbolic instance (any JSON type at every position, every subset of the pool keys present; template depth = default nesting depth, <= 4 pool keys); defaults are concrete JSON values of every type; on every path the set of inserted (location, key, value) triples is compared by SMT queries with the specification's insertion conditions")
+		r.Bounds = append(r.Bounds, "F-defaults orders.*: every iteration order of the schema's properties maps (<= 4 keys); ApplyDefaults applied twice per path to a symbolic instance (any JSON type at every position, every subset of the pool keys present; template depth = default nesting depth, <= 4 pool keys); defaults are concrete JSON values of every type; on every path the set of inserted (location, key, value) triples is compared by SMT queries with the specification's insertion conditions")
 		r.Bounds = append(r.Bounds, "ValidateDefaults: real SSA of (*Resolved).validateDefaults (schema walk by reflection over the Schema struct, package initialiser run in-engine) with every default value a symbolic JSON value T(1,2,2): it returns nil exactly when every default satisfies the reference semantics of its declaring subschema")
 		r.Outside = append(r.Outside, "defaults behind $ref/$dynamicRef and under applicators other than properties (documented as not followed); typed (non-any) instance containers, where the documentation allows a panic")
 	}
